@@ -200,5 +200,6 @@ Unforgeable == \A c \in Cases : CodeValid(r, c[1], c[2], c[3]) =>
 \* accepted => every accessor reports the signed document
 AccessorsReportSigned == \A c \in Cases : CodeValid(r, c[1], c[2], c[3]) => r.sig2 \in {SigOf(c[1], Acc(r)), SigExt(c[1], Acc(r))}
 \* a record accepted for one name is never accepted for another
-OneNameOnly == \A c1, c2 \in Cases : CodeValid(r, c1[1], c1[2], c1[3]) /\ CodeValid(r, c2[1], c2[2], c2[3]) => c1[1] = c2[1]
+OneNameOnly == \A c1 \in Cases : CodeValid(r, c1[1], c1[2], c1[3]) =>
+                  \A c2 \in Cases : c2[1] # c1[1] => ~CodeValid(r, c2[1], c2[2], c2[3])
 =============================================================================
